@@ -140,8 +140,8 @@ def observe(gfa, pool, universe=()):
     """The part of project.observe() that TraceGraphOps reads, computed the same way (written text
     of every listed line -> abstract record; forward references and back-reference collections as
     indices into the listing; header; connected_components(); an order-insensitive digest).  The
-    full projection costs 3 ms per state (neighbourhood queries, lookups, counters), four states
-    per case; this one about a third."""
+    full projection costs about 3 ms per state (neighbourhood queries, lookups, counters) and a case
+    has up to three states; this one costs about a third."""
     import hashlib
     try:
         listed = list(gfa.lines)
@@ -594,7 +594,7 @@ def c15_jobs(tier, seed, out=None):
     rnd = random.Random(seed)
     if tier == "quick":
         shapes, args, given, st = mc_multiply(3, 3, 2, "graphops-mc15")
-        plan = {0: 4, 1: 4, 2: 3, 3: 0.4}          # dovetails in the graph -> argument tuples per graph
+        plan = {0: 4, 1: 4, 2: 4, 3: 0.7}          # dovetails in the graph -> argument tuples per graph
     else:
         shapes, args, given, st = mc_multiply(3, 4, 2, "graphops-mc15")
         plan = {0: len(args), 1: len(args), 2: len(args), 3: 4, 4: 0.5}
